@@ -279,6 +279,24 @@ func mutate(t *kernel.Tape, p params, payload []byte, capBytes int) (out []byte,
 			}
 		}
 		return nil, "skip"
+	case "zkm-bloat":
+		// the in-band secret marker in place of the p.Off-th run, followed by a "secret"
+		// many times the cap: the capped readers must bound what follows the marker too
+		k, start := 0, 0
+		for i, b := range out {
+			if b == 0 {
+				if k == p.Off && i-start >= 3 {
+					rep := append([]byte("ZKM"), 0)
+					rep = append(rep, bytes.Repeat([]byte{'A'}, capBytes*int(p.Val))...)
+					rep = append(rep, 0)
+					out = append(append(append([]byte(nil), out[:start]...), rep...), out[i+1:]...)
+					return out, ""
+				}
+				k++
+				start = i + 1
+			}
+		}
+		return nil, "skip"
 	case "wide-ad":
 		// an ad many times the cap in total although every single expression is far below it
 		// (only meaningful where the payload starts with, or after 8 bytes contains, an ad)
@@ -428,6 +446,12 @@ func feed(s *kernel.Sim, p params, wire []byte, capBytes int, dec func(st *strea
 	})
 	s.Go("peer", func() {
 		peer.Write(wire)
+		if strings.HasPrefix(p.Entry, "handshake-") {
+			// a handshake endpoint answers while it reads: the peer sends everything it has,
+			// keeps listening (drain) and hangs up a little later, so that the endpoint's own
+			// writes do not fail before it has decoded the whole recording
+			s.Sleep("peer-linger", 5*time.Second)
+		}
 		peer.Close()
 	})
 	s.Go("drain", func() { // whatever the decoder writes back is read and dropped
@@ -469,7 +493,7 @@ func feed(s *kernel.Sim, p params, wire []byte, capBytes int, dec func(st *strea
 		s.Violate("stack-growth-out-of-proportion", sig, fmt.Sprintf("%s: goroutine stacks grew by %d bytes while decoding (limit 1 MiB + 8 x input): recursion depth follows the peer's input", desc, sg))
 		return
 	}
-	if capBytes > 0 && (p.Mut == "bloat" || p.Mut == "wide-ad") {
+	if capBytes > 0 && (p.Mut == "bloat" || p.Mut == "wide-ad" || p.Mut == "zkm-bloat") {
 		consumed := int(ep.BytesIn())
 		if derr == nil {
 			s.Violate("cap-not-enforced", sig, fmt.Sprintf("%s: a value %d times the cap was accepted", desc, p.Val))
@@ -595,11 +619,13 @@ func recordTranscripts(s *kernel.Sim, method security.AuthMethod) (cf, sf []refc
 	scfg := hs.Cfg(security.SecurityRequired, security.SecurityOptional, []security.AuthMethod{method}, []security.CryptoMethod{security.CryptoBlowfish}, security.NoCommand)
 	tw.ServerToken(scfg)
 	s.Go("rec-client", func() {
-		_, _ = security.NewAuthenticator(ccfg, pr.CS).ClientHandshake(ctx)
+		_, err := security.NewAuthenticator(ccfg, pr.CS).ClientHandshake(ctx)
+		s.Note("recording: client handshake ended with %v", err)
 		pr.CE.Close()
 	})
 	s.Go("rec-server", func() {
-		_, _ = security.NewAuthenticator(scfg, pr.SS).ServerHandshake(ctx)
+		_, err := security.NewAuthenticator(scfg, pr.SS).ServerHandshake(ctx)
+		s.Note("recording: server handshake ended with %v", err)
 		pr.SE.Close()
 	})
 	s.Run()
@@ -616,8 +642,21 @@ func runHandshake(s *kernel.Sim, p params) {
 	if strings.Contains(p.Entry, "token") {
 		method = security.AuthToken
 	}
+	if strings.Contains(p.Entry, "ssl") {
+		// the SSL method tunnels TLS records in (status, length, bytes) messages; the honest
+		// recording ends where the two Go halves stop (the server holds no certificate), which
+		// is after the client's first TLS message
+		method = security.AuthSSL
+	}
 	cf, sf := recordTranscripts(s, method)
 	serverUnderTest := strings.HasPrefix(p.Entry, "handshake-server")
+	if method == security.AuthSSL && !serverUnderTest && len(sf) >= 3 {
+		// what a server would send next: one tunnelled TLS message (status, length, bytes)
+		tlsmsg := make([]byte, 16, 64)
+		tlsmsg[7], tlsmsg[15] = 2, 40
+		tlsmsg = append(tlsmsg, t.Bytes("tls-bytes", 40)...)
+		sf = append(sf, refcodec.Frame{End: 1, Payload: tlsmsg, Raw: refcodec.MakeFrame(1, tlsmsg)})
+	}
 	frames := sf
 	if serverUnderTest {
 		frames = cf
@@ -645,6 +684,7 @@ func runHandshake(s *kernel.Sim, p params) {
 			scfg := hs.Cfg(security.SecurityRequired, security.SecurityOptional, []security.AuthMethod{method}, []security.CryptoMethod{security.CryptoBlowfish}, security.NoCommand)
 			tw.ServerToken(scfg)
 			_, err := security.NewAuthenticator(scfg, st).ServerHandshake(ctx)
+			s.Note("server under test: %v", err)
 			return err
 		}
 		ccfg := hs.Cfg(security.SecurityRequired, security.SecurityOptional, []security.AuthMethod{method}, hs.AES, 60021)
@@ -652,6 +692,7 @@ func runHandshake(s *kernel.Sim, p params) {
 		ccfg.TrustDomain = tw.Issuer
 		ccfg.Token = tw.Token(hs.Now()-10, hs.Now()+3600)
 		_, err := security.NewAuthenticator(ccfg, st).ClientHandshake(ctx)
+		s.Note("client under test: %v", err)
 		return err
 	})
 }
@@ -768,6 +809,18 @@ func gen(g *scen.Gen) {
 						}
 					}
 				}
+				if strings.Contains(e.name, "ad") {
+					for k := 0; k < 4; k++ {
+						for _, times := range []int64{10, 100} {
+							if e.cap*int(times) > 8<<20 {
+								continue
+							}
+							if !emit(params{Entry: e.name, Enc: enc, Mut: "zkm-bloat", Off: k, Val: times}) {
+								return
+							}
+						}
+					}
+				}
 				if !enc && strings.Contains(e.name, "ad") {
 					off := 0
 					if e.name == "ccb-reverse-connect" {
@@ -822,10 +875,20 @@ func gen(g *scen.Gen) {
 		}
 	}
 	// handshake entry points fed with a mutated recording of the peer
-	for _, ent := range []string{"handshake-server-claimtobe", "handshake-server-token", "handshake-client-claimtobe", "handshake-client-token"} {
+	for _, ent := range []string{"handshake-server-claimtobe", "handshake-server-token", "handshake-client-claimtobe", "handshake-client-token", "handshake-server-ssl", "handshake-client-ssl"} {
 		for fr := 0; fr < 6; fr++ {
 			if !emit(params{Entry: ent, Mut: "none", Frame: fr}) {
 				return
+			}
+			if strings.HasSuffix(ent, "ssl") {
+				// the status and length fields of a tunnelled TLS message, whatever the tier's stride
+				for _, off := range []int{0, 8, 16} {
+					for _, v := range []int64{-1, 1 << 31, 1 << 40, 1 << 62, -1 << 63, 70000} {
+						if !emit(params{Entry: ent, Mut: "int8", Off: off, Val: v, Frame: fr}) {
+							return
+						}
+					}
+				}
 			}
 			hstep := 8
 			if g.Quick() {
